@@ -63,6 +63,9 @@ def open_file(src, data, lazy, raw_ts, memmap, tmp, plan=None):
         f = io.BytesIO(data)
     elif src == 'short':
         f = ShortReadStream(data, plan)
+    elif src == 'pathlib':
+        import pathlib
+        f = pathlib.Path(tmp) / 'f.tdms'
     else:
         f = os.path.join(tmp, 'f.tdms')
     fn = H.TdmsFile.open if lazy else H.TdmsFile.read
@@ -174,7 +177,7 @@ def run_file(item):
                 if lazy:
                     tf.close()
             return f
-        for src in ('stream', 'path'):
+        for src in ('stream', 'path', 'pathlib'):
             for lazy in (False, True):
                 for raw_ts in (False, True):
                     for memmap in (False, True):
